@@ -143,7 +143,46 @@ def run_trace(impl, pre, acts, variants):
     return {'impl': impl, 'pre': pre, 'acts': acts, 'variants': variants, 'obs': obs}
 
 
-def skmem_trace(pre, acts):
+def skmem_trace(pre, acts, copies=False):
+    if copies:
+        return skmem_copy_trace(pre, acts)
+    return _skmem_trace(pre, acts)
+
+
+def skmem_copy_trace(pre, acts):
+    """The same actions on skoolutils.Memory, but the object is replaced by its copy() before every action (what #PUSHS does)
+    and the banks carry NO identity bytes: all RAM banks have identical contents until a data cell is written, so a copy that
+    looks its pages up by contents instead of identity pages in the wrong bank.  Visible pages are found by identity."""
+    from skoolkit.skoolutils import Memory
+    m = Memory()
+    m.bank(0)
+    rom_orig = (m.roms[0][DATA_OFF], m.roms[1][DATA_OFF])
+    m.out7ffd(pre)
+    obs = []
+    for a in acts:
+        exc = ''
+        try:
+            m = m.copy()
+            if a[0] == 'memout':
+                m.out7ffd(a[1])
+            elif a[0] == 'membank':
+                m.bank(a[1])
+            elif a[1] > 0:
+                m[a[1] * 0x4000 + DATA_OFF] = a[2]
+        except Exception as e:
+            exc = '%s: %s' % (type(e).__name__, e)
+
+        def ident(pg, pages, base):
+            hit = [base + i for i, b in enumerate(pages) if b is pg]
+            return hit[0] if len(hit) == 1 else -1
+        vis = [ident(m.memory[0], m.roms, 8), ident(m.memory[1], m.banks, 0), ident(m.memory[2], m.banks, 0), ident(m.memory[3], m.banks, 0)]
+        cells = [int(m.banks[p][DATA_OFF]) for p in range(8)]
+        cells += [0 if m.roms[i][DATA_OFF] == rom_orig[i] else 255 for i in (0, 1)]
+        obs.append({'o7ffd': int(m.o7ffd), 'tr': int(m.o7ffd), 'vis': vis, 'pvis': vis, 'cells': cells, 'exc': exc})
+    return {'impl': 'skmem', 'pre': pre, 'acts': acts, 'variants': ['copy'] * len(acts), 'obs': obs, 'copies': 1}
+
+
+def _skmem_trace(pre, acts):
     """skoolutils.Memory: acts ['memout', v, 0] / ['membank', p, 0] / ['write', region, v]."""
     from skoolkit.skoolutils import Memory
     m = Memory()
@@ -216,4 +255,5 @@ def worker(args):
             else:
                 macts.append(a)
         out.append(skmem_trace(pre, macts))
+        out.append(skmem_copy_trace(pre, macts))
     return out
